@@ -2543,6 +2543,20 @@ PROCS = [
          params=[("self._sections", ("ODict", "Str", ("ODict", "Str", "Str"))), ("self.default_section", "Str"), ("section", "Str"), ("option", "Str")], ret="Bool",
          implicit=[("strip", ("Fun", ["Str"], "Str")), ("superHasOption", ("Fun", ["Str", "Str"], "Bool"))],
          super_ops={"has_option": ("superHasOption", ["Str", "Str"], "Bool")}),
+    # ---- C16 / C20: every entry of a section becomes one parsed tuple, in the section's order; a section that is present but EMPTY is not a missing section
+    dict(name="parse_params_section", file="config/_config_parser.py", func="ConfigParser._parse_params_section",
+         params=[("self._config_parser", ("Rec", "IniRec")), ("section_name", "Str"), ("parse_line_func", ("Fun", ["Str", "Str"], ("Except", "ParseErr", ("Rec", "ParsedLine"))))],
+         ret=("Except", "ParseErr", ("List", ("Rec", "ParsedLine"))), records={"IniRec": {"default_section": ("default_section", "Str")}, "ParsedLine": {}},
+         methods=QA_METHODS, implicit=QA_OPS, locals={"params": ("List", ("Rec", "ParsedLine"))},
+         raises=[("Configuration file does not contain [{section_name}] section", "ParseErr.missingSection")]),
+] + [
+    dict(name="cp_" + nm, file="config/_config_parser.py", func="ConfigParser." + nm,
+         params=[("self._config_parser", ("Rec", "IniRec")), ("self." + lf, ("Fun", ["Str", "Str"], ("Except", "ParseErr", ("Rec", "ParsedLine"))))] + extra,
+         ret=("Except", "ParseErr", ("List", ("Rec", "ParsedLine"))),
+         records={"IniRec": {"default_section": ("default_section", "Str")}, "ParsedLine": {}}, methods=QA_METHODS, implicit=QA_OPS)
+    for nm, lf, extra in [("parse_pair_like", "_parse_pair_line", [("section_name", "Str")]), ("pair", "_parse_pair_line", []), ("eam_embed", "_parse_embed_line", []),
+                          ("eam_density", "_parse_density_line", []), ("eam_density_fs", "_parse_eam_fs_density_line", [])]
+] + [
     # ---- C14: --list-items: which sections are listed, through which route, in which order
     dict(name="parsed_sections", file="config/_config_parser.py", func="ConfigParser.parsed_sections", class_dicts=["_section_map"], dict_as_list=True,
          params=[("self", ("Rec", "CpObj"))], ret=("List", "Str"), records=QA_REC, methods=QA_METHODS, implicit=QA_OPS, locals={"sections": ("List", "Str")}),
@@ -3122,6 +3136,14 @@ def charsContain (sub : List Char) : List Char → Bool
   | [] => sub.isEmpty
   | c :: t => sub.isPrefixOf (c :: t) || charsContain sub t
 def strContains (s sub : String) : Bool := charsContain sub.toList s.toList
+
+/-- one parsed entry of a section (`PairPotentialTuple`, `EAMEmbedTuple`, ...): opaque -/
+structure ParsedLine where
+  id : Nat
+deriving Repr, DecidableEq
+inductive ParseErr where
+  | missingSection | badLine
+deriving DecidableEq, Repr
 
 /-- a `ConfigParser` object as the query actions see it: its raw parser -/
 structure CpObj where
